@@ -93,7 +93,9 @@ theorem C05_numbers_fit_iff (l : LSt) (evs : List LEv) :
 /-- **C05, safety, every fault history.**  Persistence on and all reset options off on both sides, mirrored
     CompIDs, the same BeginString — every other setting free (roles, chunk size, heartbeat settings, latency check,
     RefreshOnLogon, DefaultApplVerID, the five validator settings) with no data dictionary configured (with one, whether the
-    peer's traffic passes depends on what the dictionary says) — every history of connects, sends on both sides (non-empty payload ids),
+    peer's traffic passes depends on what the dictionary says) and EnableNextExpectedMsgSeqNum off (with it a Logon is
+    followed by a gap fill over whatever the peer's tag 789 reports missing — nothing is replayed; see `cexNxA` below) —
+    every history of connects, sends on both sides (non-empty payload ids),
     deliveries of the oldest message in flight, cuts losing everything in flight, restarts of either engine on its
     store, timer events and flushes, as long as the sequence numbers fit a Go `int`: what B's application received is
     a prefix of what A's application submitted, and what A's received a prefix of what B's submitted. -/
@@ -103,6 +105,7 @@ theorem C05_safety (cfgA cfgB : Cfg) (evs : List LEv)
     (ha1 : cfgA.resetOnLogon = false) (ha2 : cfgA.resetOnLogout = false) (ha3 : cfgA.resetOnDisconnect = false)
     (hb1 : cfgB.resetOnLogon = false) (hb2 : cfgB.resetOnLogout = false) (hb3 : cfgB.resetOnDisconnect = false)
     (hva : cfgA.validator.app = none) (hvb : cfgB.validator.app = none)
+    (hnxa : cfgA.nextExpected = false) (hnxb : cfgB.nextExpected = false)
     (hpay : ∀ side p, LEv.send side p ∈ evs → p ≠ "")
     (hfit : C05_numbers_fit (linkInit cfgA cfgB) evs) :
     let l := runLink (linkInit cfgA cfgB) evs
@@ -120,7 +123,7 @@ theorem C05_safety (cfgA cfgB : Cfg) (evs : List LEv)
     exact safe_of_LInvD this
   · have hne1 : cfgA.sender ≠ "" := fun h => hne (Or.inl h)
     have hne2 : cfgA.target ≠ "" := fun h => hne (Or.inr h)
-    have hcf : CfgsOK cfgA cfgB := ⟨hpa, hpb, ⟨ha1, ha2, ha3⟩, ⟨hb1, hb2, hb3⟩, hst, hts, hbs, hne1, hne2, hva, hvb⟩
+    have hcf : CfgsOK cfgA cfgB := ⟨hpa, hpb, ⟨ha1, ha2, ha3⟩, ⟨hb1, hb2, hb3⟩, hst, hts, hbs, hne1, hne2, hva, hvb, hnxa, hnxb⟩
     have hev : ∀ e ∈ evs, EvOKL e := by
       intro e he
       cases e with
@@ -138,6 +141,7 @@ theorem C05_safety_clauses (cfgA cfgB : Cfg) (evs : List LEv)
     (ha1 : cfgA.resetOnLogon = false) (ha2 : cfgA.resetOnLogout = false) (ha3 : cfgA.resetOnDisconnect = false)
     (hb1 : cfgB.resetOnLogon = false) (hb2 : cfgB.resetOnLogout = false) (hb3 : cfgB.resetOnDisconnect = false)
     (hva : cfgA.validator.app = none) (hvb : cfgB.validator.app = none)
+    (hnxa : cfgA.nextExpected = false) (hnxb : cfgB.nextExpected = false)
     (hpay : ∀ side p, LEv.send side p ∈ evs → p ≠ "")
     (hfit : C05_numbers_fit (linkInit cfgA cfgB) evs) :
     let l := runLink (linkInit cfgA cfgB) evs
@@ -145,7 +149,7 @@ theorem C05_safety_clauses (cfgA cfgB : Cfg) (evs : List LEv)
     (l.sentA.Nodup → l.dlvB.Nodup ∧ l.dlvB = l.sentA.take l.dlvB.length) ∧
     (l.sentB.Nodup → l.dlvA.Nodup ∧ l.dlvA = l.sentB.take l.dlvA.length) := by
   intro l
-  have h := C05_safety cfgA cfgB evs hst hts hbs hpa hpb ha1 ha2 ha3 hb1 hb2 hb3 hva hvb hpay hfit
+  have h := C05_safety cfgA cfgB evs hst hts hbs hpa hpb ha1 ha2 ha3 hb1 hb2 hb3 hva hvb hnxa hnxb hpay hfit
   simp only [safe, Bool.and_eq_true] at h
   obtain ⟨t1, e1⟩ := (isPrefix_iff _ _).1 h.1
   obtain ⟨t2, e2⟩ := (isPrefix_iff _ _).1 h.2
@@ -193,6 +197,7 @@ def C05_safety_full : Prop :=
     cfgA.resetOnLogon = false → cfgA.resetOnLogout = false → cfgA.resetOnDisconnect = false →
     cfgB.resetOnLogon = false → cfgB.resetOnLogout = false → cfgB.resetOnDisconnect = false →
     cfgA.validator.app = none → cfgB.validator.app = none →
+    cfgA.nextExpected = false → cfgB.nextExpected = false →
     let l := runLink (linkInit cfgA cfgB) evs
     safe l.sentA l.sentB l.dlvA l.dlvB = true
 
@@ -211,6 +216,21 @@ def cexHistory : List LEv :=
 #guard cexA.initiator && !cexB.initiator && cexA.sender == cexB.target && cexA.target == cexB.sender && cexA.bs == cexB.bs
   && cexA.persist && cexB.persist && !cexA.resetOnLogon && !cexA.resetOnLogout && !cexA.resetOnDisconnect
   && !cexB.resetOnLogon && !cexB.resetOnLogout && !cexB.resetOnDisconnect && cexA.validator.app.isNone && cexB.validator.app.isNone
+  && !cexA.nextExpected && !cexB.nextExpected
+
+/-! ### EnableNextExpectedMsgSeqNum on both engines (hypotheses `hnxa hnxb` of `C05_safety`: the theorems say nothing then)
+
+What the code does (observation, no property speaks about tag 789): the initiator's Logon announces `NextTargetMsgSeqNum()+1`
+in tag 789, one more than it expects; a quickfix acceptor in sync with it has exactly that number minus one as its next
+outbound number and refuses the Logon ("Tag 789 is higher than expected"): the first logon attempt of two fresh engines
+fails with a Logout.  (The Logout takes number 1, so the second attempt is accepted — and leaves the initiator in recovery.) -/
+def cexNxA : Cfg := { cexA with nextExpected := true }
+def cexNxB : Cfg := { cexB with nextExpected := true }
+#guard (let l := runLink (linkInit cexNxA cexNxB) [.connect, .deliver .B]
+        (l.b.st.name, l.b2a.map (fun o => (o.kind, o.seq)), l.a2b.length)) == ("Latent", [("5", 1)], 0)
+#guard (let l := runLink (linkInit cexNxA cexNxB) [.connect, .deliver .B, .deliver .A, .connect, .deliver .B, .deliver .A]
+        (l.a.st.name, l.b.st.name)) == ("Resend", "InSession")
+#guard (let l := runLink (linkInit cexA cexB) [.connect, .deliver .B, .deliver .A]; (l.a.st.name, l.b.st.name)) == ("InSession", "InSession")
 
 /-- the mechanism behind the counterexample, for every state: an application message whose payload field is empty,
     arriving exactly at the expected number, is refused by the default validator with ValidateFieldsHaveValues on (its
